@@ -2597,9 +2597,9 @@ class SparseLogicalVector:
     def has_negatives(self):
         return False
     
-    def negative_keys(self): set()
+    def negative_keys(self): return set()
     
-    def negative_index(self): [],
+    def negative_index(self): return [],
     
     def nonzero_index(self):
         return [*self.set],
